@@ -56,10 +56,18 @@ def gen(rng, tier):
             r = rng.random()
             if r < 0.45:
                 ops.append(["makegateway", "popen"])
-            elif r < 0.85:
+            elif r < 0.75:
                 gid = rng.choice(IDPOOL)
                 ops.append(["makegateway", f"popen//id={gid}"])
                 mine.append(gid)
+            elif r < 0.87:
+                # a call that fails after the id was allocated (unknown via gateway / no gateway type / interpreter
+                # that cannot be started): the id must be free again afterwards
+                gid = rng.choice(IDPOOL)
+                form = rng.choice(["popen//id=%s//via=nosuch", "id=%s", "popen//id=%s//python=/sim/missing-python"])
+                ops.append(["makegateway", form % gid])
+                if rng.random() < 0.6:
+                    ops.append(["makegateway", f"popen//id={gid}"])
             elif mine or True:
                 ops.append(["gwexit_id", rng.choice(IDPOOL)])
             ops.append(["groupsnap"])
@@ -223,6 +231,16 @@ def execute(case, chooser):
     return out
 
 
+def failing_form(spec):
+    if "via=nosuch" in spec:
+        return ("KeyError",)
+    if "python=/sim/missing" in spec:
+        return ("OSError", "FileNotFoundError")
+    if not spec.startswith("popen"):
+        return ("ValueError",)
+    return None
+
+
 def oracle(case, res, hist):
     V = []
     for name, p in sorted(res.procs.items()):
@@ -233,11 +251,13 @@ def oracle(case, res, hist):
     auto_ids = []
     nmk = 0
     mk = []  # (inv, ret, wanted id or None, result id or None, exc name or None)
+    forms = []  # per call: None, or the exception a deliberately failing spec has to end with
     for aid, oi, op, s1, s2, r in hist.ops(("makegateway",)):
         nmk += 1
-        want = op[1].split("id=")[1] if "id=" in op[1] else None
+        want = op[1].split("id=")[1].split("//")[0] if "id=" in op[1] else None
         got = r[1] if (r is not None and r[0] == "gw") else None
         mk.append((s1, s2 if s2 is not None else 10**12, want, got, r[1] if (r is not None and r[0] == "exc") else None))
+        forms.append(failing_form(op[1]))
         if got is not None and want is None:
             auto_ids.append(got)
 
@@ -259,6 +279,20 @@ def oracle(case, res, hist):
 
     any_raced_failure = False
     for i, (s1, s2, want, got, exc) in enumerate(mk):
+        if forms[i] is not None:
+            # deliberately failing spec: refused for its id (ValueError) or failing in its own way, never a gateway
+            if got is not None:
+                V.append(v("failing-spec-produced-gateway", forms[i], f"id={want} -> {got}"))
+            elif exc not in ("ValueError",) + forms[i]:
+                V.append(v("makegateway-raised-other", f"{exc};failing-form", f"makegateway(id={want}) raised {exc}"))
+            continue
+        if exc == "ValueError" and want is not None:
+            # a refusal needs a reason: the id was obtained by some gateway before this call returned, or another
+            # makegateway call aiming at the same id was in flight
+            ever = any(g2 == want and t2 < s2 for (t1, t2, w2, g2, e2) in mk)
+            if not ever and not raced(i):
+                V.append(v("id-refused-though-free", "explicit",
+                           f"makegateway(id={want}) refused although no gateway ever held that id and no other call was in flight"))
         if exc is not None and exc != "ValueError":
             how = "concurrent-same-id" if raced(i) else "sequential"
             any_raced_failure = any_raced_failure or how == "concurrent-same-id"
